@@ -20,7 +20,9 @@ func (p *vPipe) sync(job *job, ctx interface{ Err() error }) (int, error) { retu
 
 // VerifC11RaffleStep: one borrow or return from an arbitrary raffle state
 // that satisfies the representation invariant
-//   tickets(kind) + |running entries of kind| = pool(kind), ids unique
+//
+//	tickets(kind) + |running entries of kind| = pool(kind), ids unique
+//
 // preserves the invariant, never hands out a second ticket for a running id
 // and never exceeds the pools (inductive step: covers histories of any length).
 func VerifC11RaffleStep(h *verifh.H) {
